@@ -31,6 +31,25 @@ class Item:
         return "Item(%d,%d)" % (self.id, self.k)
 
 
+_cascades = [0]
+_probe = [False]
+
+
+def install_cascade_probe():
+    """Coverage probe (outside wrap, no verdict): count cascading cuts through a marked node in the real heap."""
+    if _probe[0]:
+        return
+    from graphtage import fibonacci as fb
+    orig = fb.FibonacciHeap._cascading_cut
+
+    def _cascading_cut(self, y):
+        if y.parent is not None and y.mark:
+            _cascades[0] += 1
+        return orig(self, y)
+    fb.FibonacciHeap._cascading_cut = _cascading_cut
+    _probe[0] = True
+
+
 def _heap(maxheap):
     from graphtage.fibonacci import FibonacciHeap, MaxFibonacciHeap
     if maxheap:
@@ -54,6 +73,7 @@ def execute(ops, maxheap, follow=None):
     from graphtage.fibonacci import ReversedComparator
     heap = _heap(maxheap)
     nodes = {}
+    live = set()
     trace = []
     next_id = 1
     diverged = False
@@ -61,9 +81,15 @@ def execute(ops, maxheap, follow=None):
         with deadline(3.0):
             for o in ops:
                 op = o["op"]
+                if op in ("dec", "rem") and o["id"] not in live:
+                    # the heap legally popped another one of several equal minima than the generated behaviour
+                    # assumed: the target is gone, the rest of the behaviour does not apply to this execution
+                    diverged = True
+                    break
                 if op == "push":
                     it = Item(next_id, o["key"])
                     nodes[next_id] = heap.push(it)
+                    live.add(next_id)
                     trace.append({"op": "push", "id": next_id, "key": o["key"], "len": len(heap), "truth": bool(heap)})
                     next_id += 1
                 elif op in ("pop", "peek"):
@@ -72,6 +98,8 @@ def execute(ops, maxheap, follow=None):
                     node = nodes.get(nid)
                     key = _plain_key(node, maxheap) if node is not None else -1
                     trace.append({"op": op, "id": nid, "key": key, "len": len(heap), "truth": bool(heap)})
+                    if op == "pop":
+                        live.discard(nid)
                     if "id" in o and o["id"] != nid:
                         diverged = True
                         break
@@ -82,6 +110,7 @@ def execute(ops, maxheap, follow=None):
                 elif op == "rem":
                     node = nodes[o["id"]]
                     heap.remove(node)
+                    live.discard(o["id"])
                     trace.append({"op": "rem", "id": o["id"], "key": _plain_key(node, maxheap), "len": len(heap),
                                   "truth": bool(heap)})
                 else:
@@ -261,6 +290,37 @@ def run():
             trace, div = execute(b, mh)
             chk.count(("sim", mh, json.dumps(b, sort_keys=True)))
             batches[mh].append((trace, {"kind": "simulated", "ops": b}))
+
+    # 3b. directed behaviours from the mechanism model FibHeap.tla: consolidation of 5..9 items followed by cuts that
+    #     cascade through a marked node (12+ operations, out of reach of blind enumeration)
+    cfg = ("SPECIFICATION Spec\nCONSTANTS Keys = {0,1,2} MaxNodes = 4 MaxOps = %d\nINVARIANT SizeOK\nINVARIANT RootsOK\n"
+           "INVARIANT ParentsOK\nINVARIANT NoDeletedInside\nINVARIANT HeapOrder\nINVARIANT MinOK\nPROPERTY PopReturnsMin\n"
+           "CHECK_DEADLOCK FALSE\n" % (6 if t == "quick" else 7))
+    res = tlc.run_tlc("FibHeap", cfg, workers=16, timeout=1500, name="FibHeap-mc")
+    if not res.completed:
+        chk.drift.append("FibHeap.tla violates one of its structural invariants on the model (lead only)")
+    chk.add_tlc(res, "FibHeap", "L2 mechanism model: structural invariants + pop returns a minimum, all behaviours")
+    cfg = ("SPECIFICATION GenSpec\nCONSTANTS Keys = {0,1,2} MaxNodes = 9 MaxOps = 99 PushKeys = %s TailOps = %d\n"
+           "INVARIANT Emit\nCHECK_DEADLOCK FALSE\n" % (("{1}", 3) if t == "quick" else ("{1,2}", 3)))
+    res = tlc.run_tlc("FibHeapGen", cfg, workers=1, timeout=3000, name="FibHeapGen")
+    directed = [x["h"] for x in res.printed if isinstance(x, dict) and "h" in x]
+    chk.add_tlc(res, "FibHeapGen", "directed generation: %d behaviours ending in a cascading cut" % len(directed))
+    chk.extra["directed_cascading_cut_behaviours"] = len(directed)
+    if not directed:
+        chk.drift.append("FibHeapGen produced no behaviour with a cascading cut")
+    install_cascade_probe()
+    before = _cascades[0]
+    for b in directed:
+        for mh in (False, True):
+            ops = [dict(o, key=(2 - o["key"])) if (mh and "key" in o) else o for o in b]
+            trace, div = execute(ops, mh)
+            chk.count(("directed", mh, json.dumps(b, sort_keys=True)))
+            batches[mh].append((trace, {"kind": "enumerated", "ops": ops}))
+    chk.extra["cascading_cuts_observed_in_the_real_heap_on_directed_behaviours"] = _cascades[0] - before
+    if directed and _cascades[0] == before:
+        chk.drift.append("no directed behaviour made the real heap perform a cascading cut: FibHeap.tla has drifted")
+    if directed:
+        chk.sample({"kind": "directed behaviour (cascading cut)", "ops": directed[0]})
 
     # 4. long adaptive random runs with duplicates, chosen against the heap's own state
     r = rng("c16")
